@@ -62,3 +62,16 @@ claim("C02",
       "grammar would re-associate it (NP2.*). NOT proved: that the database evaluates operators as documented.",
       "Oracle = SQLite's documented precedence table (the executable grammar here). translate_expr is external (uninterpreted result, "
       "Context state not modelled); sqlparser enums are mechanically generated skeletons; sqlparser's Display is trusted to print trees as written.")
+
+prop("C01", ["split_order", "take_range"],
+     not_covered="anchor_split cid redirection, preprocess (distinct/union recognition), lowering, flattening: hash-map threaded folds over three "
+                 "IRs; a violation there is invisible to these contracts")
+claim("C01",
+      "PARTIAL (necessary conditions). Proved on the real functions, for all inputs: is_split_required never lets a transform share a SELECT "
+      "with a later transform that SQL's logical clause order would evaluate earlier (one clause per (transform, later transform) pair, SO1.*), "
+      "its frame (SO2); a filter never follows a compute in one SELECT unless it is a HAVING (SO1c); can_materialize inlines a column only if "
+      "its complexity is allowed by every requirement (CM1) with Complexity the total order Plain<NonGroup<Windowed<Aggregation (CX1); "
+      "reorder() hoists a compute over a take only if it is row-local (RO1); composition of takes and LIMIT/OFFSET arithmetic (take_range). "
+      "NOT proved: the end-to-end sentence of C01 (semantic preservation of the whole compiler).",
+      "Oracle: SQL's logical clause order. HashSet<String>, strum AsRefStr, contains_any, the filter/fold in can_materialize and "
+      "infer_complexity_expr are trusted by contract; split_off_back's loop and anchor_split are not under contract.")
